@@ -219,8 +219,10 @@ template <typename _Derived>
 typename _Derived::Vector
 act(const LieGroupBase<_Derived>& lie_group,
     typename _Derived::Vector v,
-    typename _Derived::OptJacobianRef J_vout_m = {},
-    typename _Derived::OptJacobianRef J_vout_v = {})
+    tl::optional<Eigen::Ref<Eigen::Matrix<
+      typename _Derived::Scalar, _Derived::Dim, _Derived::DoF>>> J_vout_m = {},
+    tl::optional<Eigen::Ref<Eigen::Matrix<
+      typename _Derived::Scalar, _Derived::Dim, _Derived::Dim>>> J_vout_v = {})
 {
   return lie_group.act(v, J_vout_m, J_vout_v);
 }
